@@ -715,7 +715,7 @@ func (p *Parser) parseSelectStatement() (ast.Statement, error) {
 							fmt.Sprintf("error parsing ON condition for %s JOIN: %v", joinType, err),
 							p.currentLocation(),
 							"",
-						)
+						).WithCause(err)
 					}
 					joinCondition = cond
 				} else if p.isType(models.TokenTypeUsing) {
@@ -1161,7 +1161,7 @@ func (p *Parser) parseSelectWithSetOperations() (ast.Statement, error) {
 				fmt.Sprintf("error parsing right SELECT: %v", err),
 				p.currentLocation(),
 				"",
-			)
+			).WithCause(err)
 		}
 
 		// Create the set operation with left as the accumulated result
